@@ -263,8 +263,9 @@ def size_op(w, op):
                 toks = ['OVERSIZE']
             w.http('POST', q, body=body, slot=s)
             return 'post', {'s': s, 'body': toks}
-        pfx = 'mY' if op.get('bin') else 'mZ'
-        # body = '4' + 'c:mZ<k>:' + 'x'*k  (text)   or   'b' + base64(...) (binary)
+        pfx = 'mU' if op.get('mb') else 'mY' if op.get('bin') else 'mZ'
+        # body = '4' + 'c:mZ<k>:' + 'x'*k  (text)   or   'b' + base64(...) (binary)   or, with 'mb',
+        # k two-byte characters: the limit counts BYTES of the body, not characters
         tok = pfx + str(fit(pfx, total, 'polling'))
         body = W.encode_cli_packet(tok, 'polling').encode()
         w.http('POST', q, body=body, slot=s)
